@@ -48,12 +48,14 @@ def run(ctx):
     ctx.cov["distinct_nontrivial"] = len(set(m["text"] for m in meta))
     ctx.assumptions = ["rational observables: tolerance 2^-40 relative", "volumes: within 2^-30 relative of the rigorous enclosure",
                        "1e-24 and the packing factors are taken as exact reals; Python uses their nearest doubles"]
-    seen = set()
+    # one report per signature, on the shortest failing input
+    best = {}
     for d in data["direct_fails"]:
-        if d["signature"] in seen:
-            continue
-        seen.add(d["signature"])
-        ctx.report(d["signature"], d["what"], dict(input=d))
+        if d["signature"] not in best or len(d["input"]) < len(best[d["signature"]]["input"]):
+            best[d["signature"]] = d
+    ctx.cov["direct_fails"] = dict((k, sum(1 for d in data["direct_fails"] if d["signature"] == k)) for k in best)
+    for sig in sorted(best):
+        ctx.report(sig, best[sig]["what"], dict(input=best[sig]))
     if not proved:
         kind, msg = ctx.broken
         if not data["direct_fails"]:
